@@ -12,10 +12,10 @@ Theorem C15_locate_perm : forall (D : Type) (has : D -> bool) dirs dirs',
 Proof. exact @locate_order_independent. Qed.
 Print Assumptions C15_locate_perm.
 
-(* the register collection is only ever asked for membership *)
+(* the register collection is only ever asked for membership (of a name, in any letter case) *)
 Theorem C15_registers_perm : forall (n : list Z) regs regs',
-  Permutation regs regs' -> Subst.mem n regs = Subst.mem n regs'.
-Proof. exact mem_order_independent. Qed.
+  Permutation regs regs' -> Subst.reg_mem n regs = Subst.reg_mem n regs'.
+Proof. exact reg_mem_order_independent. Qed.
 Print Assumptions C15_registers_perm.
 
 (* the order of lines with equal addresses is fixed by the (stable) sort: a permutation, sorted by address *)
